@@ -24,6 +24,7 @@ func runC13(c *Ctx) {
 		"C13.2 the precedence sorter orders by precedence descending and every tie-break step compares one field on both sides",
 		"C13.3 every state-store function that assembles an intention list sorts it by precedence on every successful path before returning it",
 		"C13.4 the decision takes the first matching intention of the sorted list and falls back to the default only when none matches",
+		"C13.6 loops that collect intentions from an entry's Sources scan all of them (no stop at the first match)",
 		"C13.5 the stored precedence of a config-entry source is recomputed on every normalisation (never kept from the previous write)",
 	}
 	r.NotDecided = []string{"wildcard expansion in IntentionMatch for all pairs", "agreement between legacy and config-entry storage for all sets"}
@@ -458,6 +459,101 @@ func checkPrecedenceRecomputed(c *Ctx) {
 	}
 	r.Floor("C13.5", 2)
 	_ = n
+	checkSourceCollectors(c)
+}
+
+// C13.6: a loop that collects intentions from an entry's Sources scans all of
+// them. One entry may carry several sources with the same name (local, per
+// peer, per sameness group); stopping at the first match makes the decision
+// depend on the order in which they were written.
+func checkSourceCollectors(c *Ctx) {
+	p, r := c.P, c.R
+	nLoops := 0
+	for _, rel := range []string{"agent/consul/state", "agent/structs"} {
+		for _, f := range p.SrcFuncs(rel) {
+			seenHdr := map[*ssa.BasicBlock]bool{}
+			for _, b := range f.Blocks {
+				for _, in := range b.Instrs {
+					// an element access of a slice reached through a field named Sources
+					var base ssa.Value
+					switch x := in.(type) {
+					case *ssa.IndexAddr:
+						base = x.X
+					case *ssa.Index:
+						base = x.X
+					default:
+						continue
+					}
+					if core.AccessOf(base).LastField() != "Sources" {
+						continue
+					}
+					hb := loopHeaderOf(b)
+					if hb == nil || seenHdr[hb] {
+						continue
+					}
+					// the loop body: blocks dominated by the header from which the header is reachable
+					inLoop := map[*ssa.BasicBlock]bool{}
+					for _, bb := range f.Blocks {
+						if hb.Dominates(bb) && reachesBlock(bb, hb, nil) {
+							inLoop[bb] = true
+						}
+					}
+					// appends to a result slice inside the loop
+					var appends []ssa.Instruction
+					for bb := range inLoop {
+						for _, y := range bb.Instrs {
+							if call, ok := y.(*ssa.Call); ok {
+								if bi, ok := call.Call.Value.(*ssa.Builtin); ok && bi.Name() == "append" {
+									appends = append(appends, y)
+								}
+							}
+						}
+					}
+					if len(appends) == 0 {
+						continue
+					}
+					seenHdr[hb] = true
+					nLoops++
+					construct := fmt.Sprintf("%s/sources-loop@%s", core.FuncName(f), p.Pos(firstPos(hb)))
+					construct = core.FuncName(f) + "/sources-loop"
+					bad := ""
+					for _, ap := range appends {
+						w := &core.Walk{Stop: func(x ssa.Instruction) bool { return x.Block() == hb }}
+						var exits []*ssa.BasicBlock
+						w.Visit = func(x ssa.Instruction) {
+							bb := x.Block()
+							if !inLoop[bb] && bb != hb && x == bb.Instrs[0] {
+								exits = append(exits, bb)
+							}
+						}
+						w.FromInstr(ap)
+						for _, eb := range exits {
+							// leaving the loop without passing its header: fine only towards a failing return
+							onlyFail := true
+							w2 := &core.Walk{Visit: func(x ssa.Instruction) {
+								if rt, ok := x.(*ssa.Return); ok && core.ClassifyReturn(rt) != core.RetFailure {
+									onlyFail = false
+								}
+							}}
+							w2.FromInstr(eb.Instrs[0])
+							if rt, ok := eb.Instrs[0].(*ssa.Return); ok && core.ClassifyReturn(rt) != core.RetFailure {
+								onlyFail = false
+							}
+							if !onlyFail {
+								bad = p.Pos(ap.Pos())
+							}
+						}
+					}
+					if bad != "" {
+						r.Violate("C13.6", construct, p.Pos(firstPos(hb)), "after collecting a source (append at "+bad+") the scan of the entry's Sources stops: a second source of the same name (another peer or sameness group) is never considered, so which intention decides depends on the order the sources were written in")
+					} else {
+						r.Hold("C13.6", construct, p.Pos(firstPos(hb)), "all sources of the entry are scanned")
+					}
+				}
+			}
+		}
+	}
+	r.Floor("C13.6", 3)
 }
 
 func condLoads(v ssa.Value) []ssa.Value {
